@@ -739,10 +739,10 @@ def decode_cols(v):
 
 class Check(PropertyCheck):
     id = 'C04'
-    props = ['Tables.v', 'C04.v', 'ExecFacts.v', 'C04Exec.v']
+    props = ['Tables.v', 'C04.v', 'ExecFacts.v', 'C04Exec.v', 'C04Leaf.v']
     static_targets = ['theories/Model/Pinned.vo', 'theories/Lemmas/TablesL.vo', 'theories/Model/AsMatrix.vo',
                       'theories/Lemmas/AsMatrixL.vo', 'theories/Lemmas/AsMatrixExecL.vo', 'theories/Lemmas/AsMatrixLoopL.vo', 'theories/Lemmas/ExecFactsL.vo',
-                      'theories/Lemmas/AsMatrixOvL.vo']
+                      'theories/Lemmas/AsMatrixOvL.vo', 'theories/Lemmas/AsMatrixLeafL.vo']
     coq_header = A.COQ_HEADER + 'From Furax Require Import Model.Wf Model.AsMatrix.\nFrom Furax Require Import Lemmas.ExecFactsL Lemmas.AsMatrixOvL.\n'
     shard = 60
     workers = 8
